@@ -23,8 +23,8 @@ def classify(iToken, lObjects):
         iCurrent = entity_designator.classify(iToken, lObjects)
 
         while utils.is_next_token(",", iCurrent, lObjects):
-            iCurrent = utils.assign_next_token_required(",", token.comma, iToken, lObjects)
+            iCurrent = utils.assign_next_token_required(",", token.comma, iCurrent, lObjects)
 
-            entity_designator.classify(iToken, lObjects)
+            iCurrent = entity_designator.classify(iCurrent, lObjects)
 
     return iCurrent
